@@ -19,7 +19,7 @@ type rememberWorld struct {
 func newRememberWorld(pid, hash string) *rememberWorld {
 	w := world.New()
 	w.Init("remember")
-	w.Store.Users = []*world.User{{PID: pid, Email: "a@example.com"}}
+	w.Store.Users = []world.Record{world.NewUser(pid, "a@example.com")}
 	return &rememberWorld{w: w, serial: w.Store.Seed(pid, hash)}
 }
 
